@@ -150,7 +150,39 @@ func countTGP(c *kit.Ctx, w World, o wobs) {
 	}
 }
 
+// countLifecycle buckets the object event orders per node: which deletions happened, was the entry re-created,
+// and was protection memory (mark / nomination) set before the deletion.
+func countLifecycle(c *kit.Ctx, w World) {
+	for _, n := range w.Nodes {
+		protected, delN, delC, readd := false, false, false, false
+		for _, o := range w.Ops {
+			if o.ID != n.ID {
+				continue
+			}
+			switch o.Kind {
+			case "mark", "nominate":
+				if !delN && !delC {
+					protected = true
+				}
+			case "delnode":
+				delN = true
+			case "delclaim":
+				delC = true
+			case "refresh":
+				if delN || delC {
+					readd = true
+				}
+			}
+		}
+		if delN || delC {
+			k := map[[2]bool]string{{true, false}: "node-deleted", {false, true}: "claim-deleted", {true, true}: "both-deleted"}[[2]bool{delN, delC}]
+			c.Count("lifecycle:" + k + map[bool]string{true: ":re-created", false: ""}[readd] + map[bool]string{true: ":protected-before", false: ""}[protected])
+		}
+	}
+}
+
 func emitB(c *kit.Ctx, w World, cell, baseName string) {
+	countLifecycle(c, w)
 	countHistory(c, w)
 	o := runWorld(c, &w)
 	countTGP(c, w, o)
@@ -277,6 +309,22 @@ func main() {
 			if r.Chance(1, 3) {
 				n.Claim.TGP = true
 			}
+			if r.Chance(1, 5) {
+				n.Claim.ExpireAfter = ip(int64(r.Range(0, 7200)) * sec)
+			}
+			if r.Chance(1, 5) {
+				n.Node.Labels["zone"] = kit.Pick(r, []string{"test-zone-1", "test-zone-2", "z9"})
+				n.Node.Labels["ct"] = kit.Pick(r, []string{"spot", "on-demand", "reserved"})
+			}
+			if r.Chance(1, 5) {
+				// random object lifecycle: deletions, updates, marks and nominations interleaved
+				for k := r.Range(2, 5); k > 0; k-- {
+					g.at(g.F-int64(r.Range(0, 30))*sec-int64(r.Range(0, 999))*1_000_000,
+						kit.Pick(r, []string{"delnode", "delclaim", "refresh", "refresh", "mark", "unmark", "nominate"}), n.ID)
+				}
+				note += n.ID + ":lifecycle-history "
+				c.Count("pert:lifecycle")
+			}
 			if r.Chance(1, 3) {
 				g.setPoolTGP(n.Claim.Labels["np"], kit.Pick(r, []int64{300 * sec, 600 * sec, 1 * sec}))
 			}
@@ -327,10 +375,12 @@ func main() {
 		"then random worlds of 1-3 nodes with 0-3 perturbations each; condition cases: exhaustive grid consolidateAfter x Initialized x lastPodEvent x clock at boundary-1ns/boundary/boundary+1ns x previous condition"
 	c.Meta.Exhaustive = false
 	c.Meta.Corr = []string{
-		"disruption.GetCandidates(NewMethods[i].ShouldDisrupt, NewMethods[i].Class()) on state.Cluster after Mark/Unmark/Nominate/Update/clock ops = C07.Model.get_candidates (exact id set, per method, incl. error)",
+		"disruption.GetCandidates(NewMethods[i].ShouldDisrupt, NewMethods[i].Class()) on state.Cluster after Mark/Unmark/Nominate/Update/DeleteNode/DeleteNodeClaim/clock ops = C07.Model.get_candidates (exact id set, per method, incl. error)",
 		"StateNode.ValidateNodeDisruptable = nil  <->  C07.Model.validate_node_only = NOk",
 		"StateNode.ValidatePodsDisruptable error class (nil / PodBlockEvictionError / other) = C07.Model.validate_pods",
 		"nodeclaim/disruption.Consolidation.Reconcile (condition after, RequeueAfter) = C07.Model.reconcile_consolidatable",
+		"Cluster.IsNodeNominated after the history (incl. DeleteNode / DeleteNodeClaim / re-creation) = C07.Model.nominated on the entry's memory",
+		"disruptionutils.IsUnderConsolidateAfter = C07.Model.under_consolidate_after",
 	}
 	c.Meta.Extra = map[string]interface{}{"assumptions": []string{
 		"time.ParseDuration / strconv.ParseFloat (Go standard library) are applied by the harness to annotation values before they enter the model; the positivity, start-time and clamping logic is in the model",
